@@ -5,6 +5,9 @@ K (correspondence, model vs implementation)
       `falcon.testing`) vs `C40.capHeaders cfg`;
   K2  `http_capabilities()` (the real client probe, through `_SyncTestClient`) on the real app vs `C40.probe (capHeaders cfg)`;
   K3  the probe on *foreign* header sets (a stub client returning generated headers) vs `C40.probe`;
+  K5  probe SEQUENCES: several apps under different prefixes on one origin, re-deployments with another configuration, probed
+      one after another through the public `http_capabilities(base_url, prefix=…)` path (own client), an explicit httpx2
+      client and the in-process client: every result vs `probe (capHeaders cfg)` of the configuration served at that moment;
   K4  `str(int)` / `int(str)` / `parse_encoding_list` vs the model's `pyStrInt` / `pyIntParse` / `parseEncodingList`.
 O (direct oracle): the documented capability table (docs/WIRE_PROTOCOL.md, "Capability discovery") evaluated in Python on
   the configuration: each header present iff its feature is configured, with the configured value, on *every* response;
@@ -47,13 +50,15 @@ RULE = (
     "pages; every combination is also paired with a 'bystander' — a make_wsgi_app setting that has no capability header "
     "(proxy_auth_headers, an authenticator declaring proxy headers, no authenticator, CORS variants, OAuth metadata, token/cache "
     "sizing, not-found page off, the deprecated max_stream_response_bytes alias) rotating with the index, plus a full bystander x "
-    "spread-of-combinations matrix; distinct by (configuration incl. bystander, route kind); foreign-header probe cases "
+    "spread-of-combinations matrix; distinct by (configuration incl. bystander, route kind); probe sequences (deploy/probe steps on one origin: 2-3 prefixes, "
+    "re-deployments, own/httpx/in-process client) distinct by the step list; foreign-header probe cases "
     "distinct by header set"
 )
 PARTIAL = [
     "HttpServerCapabilities has no field for VGI-Proxy-Proof-Required / VGI-Token-Introspection: the probe cannot read those two settings back (headers themselves are checked)",
     "cache_expires_at (a monotonic clock reading) is outside the model",
-    "a non-integral sticky_default_ttl is advertised truncated (int()); the exactness oracle demands the decimal value only for integral TTLs",
+    "VGI-Sticky-Default-TTL is 'integer seconds': for a non-integral sticky_default_ttl the configured value the header must "
+    "carry (and the probe must read back) is int(ttl), an integer string — demanded for every TTL, fractional ones included",
 ]
 MANIFEST = {
     "level": "proof",
@@ -129,7 +134,7 @@ def _authenticate(req: Any) -> AuthContext:
 
 
 INT_VALUES = [0, 1, 1000, 65536, 2**31, 2**63 + 1, 10**30, -1, -(2**40)]
-TTL_VALUES = [300.0, 1.0, 0.0, 86400.0, 7.0, 2.5, 0.9, 1e9]
+TTL_VALUES = [300.0, 1.5, 1.0, 0.5, 0.0, 86400.0, 90.25, 7.0, 2.999, 0.9, 1e9, 60]
 ECHO_SETS = [{"fly-force-instance-id": "abc"}, {"X-A": "1", "X-B": "2"}, {"a": "", "b": "", "c": ""}]
 
 
@@ -240,7 +245,7 @@ def spec_headers(cfg: dict[str, Any]) -> dict[str, str]:
         h["vgi-proxy-proof-required"] = "true"
     if cfg["sticky"]:
         h["vgi-sticky-enabled"] = "true"
-        h["vgi-sticky-default-ttl"] = "%d" % int(cfg["sticky_ttl"])  # integer seconds
+        h["vgi-sticky-default-ttl"] = "%d" % int(cfg["sticky_ttl"])  # integer seconds: always an integer string the client can parse
         if cfg["echo"]:
             h["vgi-sticky-echo-headers"] = ", ".join(cfg["echo"])
     if cfg["introspect"]:
@@ -376,10 +381,7 @@ def check_response(ctx: Any, cfg: dict[str, Any], prefix: str, kind: str, verb: 
     by = cfg.get("bystander", "none")
     bk = "" if by == "none" else f":with:{by}"
     ctx.case(case, nontrivial=True, tags=(f"kind:{kind}", f"status:{status}", f"bystander:{by}"))
-    integral_ttl = float(cfg["sticky_ttl"]).is_integer()
     for name in ALL_CAPS:
-        if name == "vgi-sticky-default-ttl" and not integral_ttl:
-            continue
         if name in want and name not in got:
             ctx.fail(case, f"C40:missing:{name}:{kind}{bk}", f"{verb} {path} -> {status}: {name} is configured ({want[name]!r}) but absent")
         elif name not in want and name in got:
@@ -420,12 +422,147 @@ def run_cfg(ctx: Any, cfg: dict[str, Any], prefix: str, full_pages: bool, n_kind
     case = {"cfg": cfg, "prefix": prefix, "kind": "probe", "full_pages": full_pages}
     ctx.case(case, nontrivial=True, tags=("kind:probe",))
     for k, v in want.items():
-        if k == "sticky_default_ttl" and not float(cfg["sticky_ttl"]).is_integer():
-            continue
         if caps[k] != v:
-            ctx.fail(case, f"C40:probe:{k}", f"http_capabilities().{k} = {caps[k]!r}, the configuration says {v!r}")
+            ctx.fail(case, f"C40:probe:{k}" + (":fractional-ttl" if k == "sticky_default_ttl" and not float(cfg["sticky_ttl"]).is_integer() else ""),
+                     f"http_capabilities().{k} = {caps[k]!r}, the configuration says {v!r}"
+                     + (f" (sticky_default_ttl={cfg['sticky_ttl']!r})" if k == "sticky_default_ttl" else ""))
     if model_probe is not None and model_probe != caps:
         ctx.mismatch(case, model_probe, caps, "http_capabilities(): model probe(capHeaders cfg) vs implementation")
+
+
+# ------------------------------------------------------------------------------------------ probe sequences (K5 / O)
+
+
+class _Host:
+    """One origin serving several vgi-rpc apps by prefix; `deploy` replaces what a prefix serves (a reconfiguration)."""
+
+    def __init__(self) -> None:
+        self.apps: dict[str, Any] = {}
+
+    def __call__(self, environ: dict[str, Any], start_response: Any) -> Any:
+        path = environ.get("PATH_INFO", "")
+        best = None
+        for pfx in self.apps:
+            if (path == pfx or path.startswith(pfx + "/")) and (best is None or len(pfx) > len(best)):
+                best = pfx
+        if best is None:
+            start_response("404 Not Found", [("Content-Length", "0")])
+            return [b""]
+        return self.apps[best](environ, start_response)
+
+
+def seq_cfg(rng: Any, i: int, seed: int) -> dict[str, Any]:
+    bits = all_bits()
+    idx = rng.randrange(len(bits))
+    cfg = make_cfg(bits[idx], idx + i, seed, rng.randrange(12))
+    cfg["bystander"] = "none"
+    return cfg
+
+
+def gen_probe_sequence(rng: Any, seed: int, n: int) -> list[dict[str, Any]]:
+    """deploy / probe steps on one origin: several prefixes, re-deployments with another configuration, probes through the
+    public entry point with its own client (`own`), with an explicit httpx2 client (`httpx`) and with the in-process test
+    client (`sync`)."""
+    prefixes = rng.sample(["/a", "/b", "/vgi", "/a/b", "/svc/v1"], rng.randrange(2, 4))
+    steps: list[dict[str, Any]] = []
+    for i, pfx in enumerate(prefixes):
+        steps.append({"op": "deploy", "prefix": pfx, "cfg": seq_cfg(rng, i, seed)})
+    live = list(prefixes)
+    for k in range(n):
+        r = rng.random()
+        if r < 0.25:
+            steps.append({"op": "deploy", "prefix": rng.choice(live), "cfg": seq_cfg(rng, 10 + k, seed)})
+        else:
+            steps.append({"op": "probe", "prefix": rng.choice(live), "mode": rng.choice(["own", "own", "own", "httpx", "sync"]),
+                          "slash": rng.random() < 0.2})
+    # every prefix is probed at the end through the path that owns its client
+    for pfx in live:
+        steps.append({"op": "probe", "prefix": pfx, "mode": "own", "slash": False})
+    return steps
+
+
+def corpus_probe_sequences(seed: int) -> list[list[dict[str, Any]]]:
+    import random
+
+    rng = random.Random(f"C40-seq-corpus:{seed}")
+    a, b, a2 = seq_cfg(rng, 0, seed), seq_cfg(rng, 1, seed), seq_cfg(rng, 2, seed)
+    a["sticky"], a["max_request_bytes"] = False, 1000
+    b["sticky"], b["max_request_bytes"], b["sticky_ttl"] = True, 5_000_000, 60.0
+    a2["sticky"], a2["max_request_bytes"], a2["sticky_ttl"] = True, 2000, 5.0
+    pr = lambda p, m="own": {"op": "probe", "prefix": p, "mode": m, "slash": False}  # noqa: E731
+    return [
+        # two services on one origin, probed one after the other
+        [{"op": "deploy", "prefix": "/a", "cfg": a}, {"op": "deploy", "prefix": "/b", "cfg": b}, pr("/a"), pr("/b"), pr("/a")],
+        # a server reconfigured / redeployed at the same URL
+        [{"op": "deploy", "prefix": "/a", "cfg": a}, pr("/a"), {"op": "deploy", "prefix": "/a", "cfg": a2}, pr("/a")],
+        # explicit client first, own client second (and the other way round)
+        [{"op": "deploy", "prefix": "/a", "cfg": a}, {"op": "deploy", "prefix": "/b", "cfg": b}, pr("/a", "httpx"), pr("/b"),
+         pr("/a", "sync"), pr("/a"), pr("/b", "httpx")],
+    ]
+
+
+_ORIGIN_N = [0]
+
+
+def check_probe_sequence(ctx: Any, steps: list[dict[str, Any]], origin: str | None = None) -> None:
+    """Run deploy/probe steps against one origin; after every probe the result must equal the configuration the probed
+    prefix serves *now* (O) and the model's `probe (capHeaders cfg)` for that configuration (K)."""
+    from unittest.mock import patch
+
+    import httpx2
+
+    import vgi_rpc.http._client as cl
+    from vgi_rpc.http import http_capabilities
+    from vgi_rpc.http._testing import _SyncTestClient
+
+    if origin is None:
+        _ORIGIN_N[0] += 1
+        origin = f"http://svc{_ORIGIN_N[0]}-{ctx.seed}.internal"
+    host = _Host()
+    real_client = httpx2.Client
+
+    class InProc(real_client):  # type: ignore[misc,valid-type]
+        def __init__(self, **kw: Any) -> None:
+            kw.pop("transport", None)
+            super().__init__(transport=httpx2.WSGITransport(app=host), **kw)
+
+    serving: dict[str, dict[str, Any]] = {}
+    for i, st in enumerate(steps):
+        if st["op"] == "deploy":
+            app, _server = build(st["cfg"], st["prefix"], False)
+            host.apps[st["prefix"]] = app
+            serving[st["prefix"]] = st["cfg"]
+            continue
+        pfx, mode = st["prefix"], st["mode"]
+        cfg = serving[pfx]
+        base = origin + ("/" if st.get("slash") else "")
+        with warnings.catch_warnings():
+            warnings.simplefilter("ignore")
+            if mode == "own":
+                with patch.object(cl.httpx2, "Client", InProc):
+                    caps = caps_dict(http_capabilities(base, prefix=pfx))
+            elif mode == "httpx":
+                with InProc(base_url=origin) as c:
+                    caps = caps_dict(http_capabilities(client=c, prefix=pfx))
+            else:
+                caps = caps_dict(http_capabilities(client=_SyncTestClient(host.apps[pfx], prefix=pfx)))
+        want = spec_caps(cfg)
+        case = {"probe_sequence": steps[: i + 1], "origin": origin}
+        earlier = [s for s in steps[:i] if s["op"] == "probe"]
+        redeployed = sum(1 for s in steps[:i] if s["op"] == "deploy" and s["prefix"] == pfx) > 1
+        ctx.case(case, nontrivial=True, tags=("kind:probe-seq", f"probe-seq:{mode}", "probe-seq:redeployed" if redeployed else
+                                              ("probe-seq:first" if not earlier else "probe-seq:later")))
+        bad = [k for k, v in want.items() if caps[k] != v]
+        if bad:
+            cls = "first" if not earlier else ("after-redeploy" if redeployed else "after-other-probes")
+            ctx.fail(case, f"C40:probe-seq:{mode}:{cls}:{bad[0]}",
+                     f"probe #{len(earlier) + 1} on {origin} (prefix {pfx!r}, {mode} client) returned "
+                     + ", ".join(f"{k}={caps[k]!r} (served: {want[k]!r})" for k in bad[:4])
+                     + f"; earlier probes: {[(s['prefix'], s['mode']) for s in earlier]}, redeployed={redeployed}")
+        if ctx.driver is not None:
+            m = model_caps(ctx.driver.call("C40.probeCfg", {"cfg": model_cfg(cfg)}))
+            if m != caps:
+                ctx.mismatch(case, m, caps, "probe in a sequence: model probe(capHeaders cfg) of the configuration served now vs implementation")
 
 
 # ------------------------------------------------------------------------------------------ foreign headers (K3) and primitives (K4)
@@ -533,6 +670,11 @@ def run(ctx: Any) -> None:
     logging.getLogger("falcon").setLevel(logging.CRITICAL)
     logging.getLogger("vgi_rpc").setLevel(logging.CRITICAL)
     thorough = ctx.tier == "thorough"
+    # probe sequences on one origin through the public http_capabilities() entry point (corpus first, then seeded)
+    for steps in corpus_probe_sequences(ctx.seed):
+        check_probe_sequence(ctx, steps)
+    for _ in range(ctx.budget(25, 400)):
+        check_probe_sequence(ctx, gen_probe_sequence(ctx.rng, ctx.seed, ctx.rng.randrange(3, 9)))
     bits = all_bits()
     prefixes = ["", "/vgi", "/a/b"]
     n_kinds = 8 if thorough else (6 if ctx.deep else 3)
@@ -585,6 +727,9 @@ def replay(ctx: Any, case: dict[str, Any]) -> None:
     logging.getLogger("vgi_rpc").setLevel(logging.CRITICAL)
     if "foreign_headers" in case:
         foreign_probe(ctx, case["foreign_headers"])
+        return
+    if "probe_sequence" in case:
+        check_probe_sequence(ctx, case["probe_sequence"], case.get("origin"))
         return
     if "cfg" not in case:
         primitives(ctx, 1)
